@@ -108,6 +108,15 @@ func replayNames(o *suiteOut, line string) {
 }
 
 func suiteNames(o *suiteOut, r *rng, tier string, n int) {
+	// the very first look-up of the process (the tables are loaded lazily) answers like every later one
+	for _, c := range []struct {
+		name string
+		want []rune
+	}{{"dalethatafpatah", []rune{0x05D3, 0x05B2}}, {"Aacute", []rune{0xC1}}} {
+		if got := names.ToUnicode(c.name, false); string(got) != string(c.want) {
+			o.fail("C16", "the first look-up of a process gives the listed text", "tou 0 "+hx([]byte(c.name))+" (first call)", fmt.Sprint(c.want), fmt.Sprint(got))
+		}
+	}
 	for _, l := range corpusLines("names") {
 		replayNames(o, l)
 		o.count("corpus cases")
